@@ -169,7 +169,6 @@ Section WithSig.
                   q_inst _ req < q_inst _ r0 + 1000 * first_ttl r0).
   Proof.
     intros Hinv Hwf Ht. unfold Model.respond.
-    destruct (dnskey_panic Sg l (keys_of l [])); [discriminate|].
     destruct (run_groups lookup c inst qn qt l (keys_of l []) (now64 mod two32)) as [vs c1] eqn:R.
     destruct (existsb (wildcard_group Sg l) vs); [discriminate|].
     intros [= <- <-] Hl Ho. cbv zeta.
@@ -187,7 +186,7 @@ Section WithSig.
     assert (forall rq v, origin_ok (map (mk_req lookup inst qn qt l (now64 mod two32)) (keys_of l []) ++ past) rq v ->
                     forall cc, v <> GErr Secure cc) as NoErr.
     { intros rq v [Hf|(r0 & _ & _ & Hf & _)] cc ->; symmetry in Hf;
-      apply (default_rrset_err Sg verify) in Hf; discriminate. }
+      apply (rrset_verdict_err Sg verify) in Hf; discriminate. }
     destruct (find_group (ans_key (AR r)) vs) as [pp tt ii|pp cc] eqn:F; cbn in G.
     2:{ injection G as -> <- <-. exfalso. eapply (NoErr _ _ Hor cc). reflexivity. }
     injection G as -> <- <-.
@@ -234,8 +233,6 @@ Section WithSig.
                 cache_inv (new ++ past) c' /\ Forall wf_req (new ++ past).
   Proof.
     intros Hinv Hwf Ht. unfold Model.respond.
-    destruct (dnskey_panic Sg l (keys_of l [])).
-    { intros [= <- <-]. exists []. split; [intros x []|]. split; assumption. }
     destruct (run_groups lookup c inst qn qt l (keys_of l []) (now64 mod two32)) as [vs c1] eqn:R.
     assert (now64 mod two32 < two32) as Hn by (apply N.mod_lt; unfold two32; lia).
     destruct (run_groups_origin _ _ _ _ _ _ _ _ _ _ _ Hinv R) as [Hinv' _].
